@@ -268,7 +268,7 @@ func init() {
 			}
 		}})
 
-	register(&Rule{ID: "C07.redel.amount", Props: []string{"C07", "C03"}, Floor: 6,
+	register(&Rule{ID: "C07.redel.amount", Props: []string{"C07", "C03", "C06"}, Floor: 6,
 		Doc: "the destination position of a pending redelegation is reduced by trunc(fraction*recorded balance), capped by ValidateDelegatedAmount, same term on delegation and validator",
 		Run: func(e *Engine, r *RuleRun) {
 			fn := r.Need("keeper.Keeper.slashRedelegations")
